@@ -11,7 +11,7 @@ systematic sweep: ALL schedules with at most `switches` context switches at arbi
 completion) of fixed 2-thread x 2-operation programs on 2 nodes."""
 import os, json, itertools
 from concurrent.futures import ThreadPoolExecutor
-import vcheck, conc_check
+import vcheck, conc_check, conc_windows
 
 VARIANT_NAMES = {0: "FreeList", 1: "TaggedFreeList", 2: "CachedFreeList<FreeList,4>", 3: "CachedFreeList<TaggedFreeList,4>"}
 LFUEL = 60
@@ -139,6 +139,64 @@ def sweep_cases(variant, pidx, switches, maxlen, slots=(0, 0)):
             seen.add(key)
             out.append(mk_case("w%d_%d_%d" % (variant, pidx, len(out)), variant, nnodes, k, owners, threads, sched, list(slots)))
     return out
+
+
+# model-guided window schedules (lib/conc_windows.py).  FreeList is multi-phase with helping (a getter that drops the
+# last reference of a node whose SHOULD_BE_ON_FREELIST flag is set re-adds it): writes are CAS, exchange (cache slots)
+# and the fetch-add / fetch-sub on refs.
+#   "w" victim stalled right before one of its writes, actor through one of its writes or to its end, r victim steps;
+#   "m" a third thread through one of its writes in between;  "a" victim stalled before ANY step (between the load of
+#   head and the load of refs, between the load of next and the head CAS: the ABA window), few r;
+#   "d" two victims stalled before their writes, the actor's write makes both fail (hand-over of an add to a stale getter).
+# (nnodes, k, owners of nodes k+1.., threads): G = get, P = put the first held node
+WINDOW_TEMPLATES = [
+    (2, 2, [],     [["G"], ["G"], ["G"]]),
+    (2, 2, [],     [["G", "P"], ["G", "P"], ["G"]]),
+    (1, 1, [],     [["G", "P"], ["G", "P"], ["G"]]),            # one node: every get but one fails or waits for the put
+    (2, 1, [0],    [["P", "G"], ["G"], ["G", "P"]]),            # put racing with gets of the node below it
+    (2, 0, [0, 1], [["P", "G"], ["P", "G"], ["G"]]),            # two adds race for the head
+    (3, 2, [2],    [["G", "P", "G"], ["G", "P"], ["P", "G"]]),
+    (2, 2, [],     [["G", "P", "G"], ["G", "P", "G"]]),
+    (2, 1, [1],    [["G"], ["P", "G"], ["G", "P"], ["G"]]),
+]
+WINDOW_KINDS = ("cas", "xchg", "faa", "fas")
+
+
+def gen_window_cases(ctx, model, rng, quick):
+    wdir = os.path.join(ctx.work, "wprobe")
+    os.makedirs(wdir, exist_ok=True)
+    cases = []
+    info = {"templates": len(WINDOW_TEMPLATES), "enumerated": 0, "model_probes": 0}
+    for ti, (nnodes, k, owners, tpl) in enumerate(WINDOW_TEMPLATES):
+        nth = len(tpl)
+        threads0 = [[([1] if o == "G" else [2, 0]) for o in th] for th in tpl]
+        variants = [0, 1, 2, 3]
+        if quick:
+            variants = [0, (1, 2, 3)[(ctx.seed + ti) % 3]]
+        for v in variants:
+            base = mk_case("x", v, nnodes, k, owners, threads0, [], [t % 2 for t in range(nth)])
+            cfg = base["cfg"]
+            tag = "w%d_%d" % (ti, v)
+            threads, sw, inf = conc_windows.windows(model, wdir, cfg, threads0, kinds=WINDOW_KINDS, max_r=8, third=not quick and nth > 2,
+                                                    double=nth > 2, rs2=(0, 2, 5) if quick else (0, 1, 2, 3, 4, 6, 8, 12), rs_d=(0, 1, 3, 6) if quick else None,
+                                                    double_stalls=2 if quick else 4, max_actor=3 if quick else None, tag=tag, max_stalls=4 if quick else 6)
+            _, sa, inf2 = conc_windows.windows(model, wdir, cfg, threads0, kinds=WINDOW_KINDS, stall="all", rs=(0, 2) if quick else (0, 1, 2, 4, 7), tag=tag + "a")
+            sa = [("a" + n, s_) for (n, s_) in sa]
+            info["enumerated"] += len(sw) + len(sa)
+            info["model_probes"] += inf["model_probes"] + inf2["model_probes"]
+            if quick:
+                sd = [x for x in sw if x[0].startswith("d_")]
+                sw = conc_windows.subsample(rng, [x for x in sw if not x[0].startswith("d_")], 40) + conc_windows.subsample(rng, sd, 40)
+                sa = conc_windows.subsample(rng, sa, 20)
+            for name, sched in sw + sa:
+                c = dict(base); c["id"] = "%s_%s" % (tag, name); c["sched"] = sched; c["threads"] = threads
+                cases.append(c)
+    if not quick and len(cases) > 40000:
+        # thorough tier: the full enumeration, up to a budget (a seeded subsample beyond it; 'enumerated' says how many there are)
+        cases = conc_windows.subsample(rng, cases, 40000)
+        info["thorough_budget"] = 40000
+    info["cases"] = len(cases)
+    return cases, info
 
 
 def impl_features(lines):
@@ -329,6 +387,21 @@ def run(ctx):
     samples = cases[ncorpus:ncorpus + 2]
     first_div, hits = process(ctx, model, impl, cases, stats, "c")
     ctx.log("corpus + random: %d cases, %d diverged, %d monitor hits" % (stats["n"], stats["diverged"], len(hits)))
+    # model-guided window schedules
+    t_w = os.times()
+    wcases, winfo = gen_window_cases(ctx, model, ctx.rng.fork(), not ctx.thorough())
+    wst = new_stats()
+    fdw, hw = process(ctx, model, impl, wcases, wst, "win")
+    t_w2 = os.times()
+    winfo.update({"cpu_s": round((t_w2.user + t_w2.system + t_w2.children_user + t_w2.children_system) - (t_w.user + t_w.system + t_w.children_user + t_w.children_system), 1),
+                  "cases_run": wst["n"], "cases_with_failed_cas": wst["features"].get("cas_fail", 0),
+                  "cases_with_feature": dict(wst["features"]), "diverged_from_model": wst["diverged"], "monitor_hits": len(hw),
+                  "distinct_event_logs": len(wst["shapes"]), "get_returned_null": wst["events"].get("ret_get_null", 0)})
+    ctx.log("window schedules: %d cases (%d enumerated), features %s, %d diverged, %d monitor hits, cpu %.1fs" % (
+        len(wcases), winfo["enumerated"], wst["features"], wst["diverged"], len(hw), winfo["cpu_s"]))
+    merge_stats(stats, wst)
+    first_div = first_div or fdw
+    hits += hw
     nsweep = 0
     sweep_desc = []
     # systematic sweep: every schedule with at most `sw` context switches
@@ -368,9 +441,10 @@ def run(ctx):
         "evaluations": stats["n"], "distinct_nontrivial": len(stats["contended"]),
         "rule": "program x schedule pairs: random (2-4 threads, 1-4 get/put ops each, 1-3 nodes, k of them initially on the list; uniform, bursty, "
                 "stall-after-refs-CAS (re-add race / ABA window) and double-stall schedules from one splitmix64 stream) + systematic sweep (all schedules "
-                "with at most N context switches of 2 threads x 2 ops x 2 nodes); distinct = distinct (variant, model event log); non-trivial = at least "
+                "with at most N context switches of 2 threads x 2 ops x 2 nodes) + model-guided window schedules (one / two victims stalled before a CAS, exchange or refs fetch-add/sub, actor through one of its writes; see window_schedules); distinct = distinct (variant, model event log); non-trivial = at least "
                 "one failed CAS in the implementation log (contention on head, refs or a cache slot)",
         "distinct_event_logs": len(stats["shapes"]), "impl_steps_compared": stats["steps"], "diverged": stats["diverged"],
+        "window_schedules": winfo, "window_cases": len(wcases),
         "corpus_cases": ncorpus, "random_cases": nrandom, "sweep_cases": nsweep, "sweeps": sweep_desc,
         "cases_per_variant": {VARIANT_NAMES[v]: c for v, c in sorted(stats["by_variant"].items())},
         "cases_with_feature": stats["features"], "cases_cut_by_step_limit": stats["fuel"],
